@@ -711,8 +711,23 @@ impl Constraint {
 
     /// Negate this constraint
     pub fn not(self) -> Constraint {
-        Constraint {
-            kind: ConstraintKind::Not(Box::new(self)),
+        match self.kind {
+            // The negation of a comparison is the complementary comparison
+            ConstraintKind::Binary { left, op, right } => {
+                let op = match op {
+                    ComparisonOp::Eq => ComparisonOp::Ne,
+                    ComparisonOp::Ne => ComparisonOp::Eq,
+                    ComparisonOp::Lt => ComparisonOp::Ge,
+                    ComparisonOp::Le => ComparisonOp::Gt,
+                    ComparisonOp::Gt => ComparisonOp::Le,
+                    ComparisonOp::Ge => ComparisonOp::Lt,
+                };
+                Constraint { kind: ConstraintKind::Binary { left, op, right } }
+            }
+            ConstraintKind::Not(inner) => *inner,
+            kind => Constraint {
+                kind: ConstraintKind::Not(Box::new(Constraint { kind })),
+            },
         }
     }
 }
